@@ -181,7 +181,7 @@ func sysReplay(run *hlib.Run, res *Result) {
 		run.Count("sys-skipped:" + why)
 		return
 	}
-	ops, workers, note := SysLines(res, part)
+	ops, workers, early, note := SysLinesX(res, part)
 	if note != "" {
 		run.Count("sys-skipped:" + note)
 		return
@@ -189,12 +189,46 @@ func sysReplay(run *hlib.Run, res *Result) {
 	for _, l := range ops {
 		run.Emit(l, "ok")
 	}
+	// which proved scope the run is in: the driver evaluates Model.Pipeline.chainScope (= Props.C02sys.HandoverChain,
+	// the hypothesis of log_order_handover_chain) on the choices it replayed; the prediction here is computed from
+	// the emitted lines, a disagreement is a correspondence difference
+	scope := sysChainScope(ops)
+	run.Emit("sys scope", scope)
 	run.Count("sys-replayed")
+	if early > 0 {
+		run.Count("sys-replayed-with-early-handover")
+	}
+	if scope == "chain" {
+		run.Count("sys-replayed-in-handover-chain-scope")
+	} else {
+		run.Count("sys-replayed-outside-handover-chain-scope")
+	}
 	if workers <= 1 {
 		run.Count("sys-replayed-single-worker")
 	} else {
 		run.Count("sys-replayed-multi-worker")
 	}
+}
+
+// sysChainScope is "chain" when no leader lookup of the emitted ppRecv lines names a model worker twice.
+func sysChainScope(ops []string) string {
+	seen := map[string]bool{}
+	for _, l := range ops {
+		f := strings.Fields(l)
+		if len(f) != 6 || f[1] != "ppRecv" || f[5] == "-" {
+			continue
+		}
+		for _, w := range strings.Split(f[5], ",") {
+			if w == "n" {
+				continue
+			}
+			if seen[w] {
+				return "outside"
+			}
+			seen[w] = true
+		}
+	}
+	return "chain"
 }
 
 func classify(run *hlib.Run, res *Result) {
